@@ -227,6 +227,11 @@ def run_kani_unit(u, tier, seed, work, mutate=None, only=None):
                'bound': h.get('bound')}
         ev_h.append(rec)
         if r['status'] == 'undecided':
+            if h.get('optional') and h.get('kind') == 'bounded':
+                # a heavy BOUNDED cross-check (its function is proved or enumerated elsewhere): a resource failure is recorded, not fatal
+                out['bounded'].append({'harness': h['name'], 'what': h.get('what', ''), 'bound': h.get('bound', ''),
+                                       'status': 'not completed (%s)' % r['reason'][:160]})
+                continue
             if out['undecided'] is None:
                 out['undecided'] = 'harness %s: %s' % (h['name'], r['reason'])
             continue
